@@ -341,7 +341,7 @@ DRIVE = {
     "beltCHEUnwrap": D({"len": 32, "count1": 24, "count2": 20}, 1, auth=["ERR_BAD_MAC"],
                        extra={"count1": [0, 1, 16], "count2": [0, 1, 16]}, tamper=["mac", "mac0", "ct", "ad", "iv", "key"]),
     "beltKWPWrap": D({"len": 32, "count": 32}, 1),
-    "beltKWPUnwrap": D({"len": 32, "count": 48}, 1, auth=["ERR_BAD_KEYTOKEN"], tamper=["token", "tokenlast", "hdr", "key"]),
+    "beltKWPUnwrap": D({"len": 32, "count": 48}, 1, auth=["ERR_BAD_KEYTOKEN"], tamper=["token", "tokenlast", "hdr", "key", "hdrnull", "tokennull", "zerotok"]),
     "beltHash": D({"count": 40}, 0, extra={"count": [0, 1, 31, 32, 33]}),
     "beltBDEEncr": D({"len": 32, "count": 48}, 1),
     "beltBDEDecr": D({"len": 32, "count": 48}, 1),
@@ -401,7 +401,7 @@ DRIVE = {
                     extra={"l": [192, 256]}),
     "bignKeyWrap": D({"l": 128, "len": 32}, 1, flags=["ok_params", "ok_pubkey", "ok_rng"], extra={"len": [18, 64]}),
     "bignKeyUnwrap": D({"l": 128, "len": 80}, 1, flags=["ok_params", "ok_privkey"], auth=["ERR_BAD_KEYTOKEN"],
-                       tamper=["token", "point", "hdr", "key"],
+                       tamper=["token", "point", "hdr", "key", "hdrnull", "tokennull", "zerotok"],
                        hand=[("len", "a.len >= 64", "ERR_BAD_KEYTOKEN", "token [len] = [l/4 + 16 + key]: at least 16 key octets (bignKeyWrap: len >= 16; \\remark: broken token => ERR_BAD_KEYTOKEN)")],
                        extra={"len": [63, 64, 65, 0, 1]}),
     "bignIdExtract": D({"l": 128}, 1, flags=["ok_params", "ok_oid", "ok_pubkey"], auth=["ERR_BAD_SIG"], tamper=["sig0", "idhash"]),
